@@ -20,6 +20,8 @@ import (
 
 func os_getenv(k string) string { return os.Getenv(k) }
 
+var replayBase = "/verif/replays"
+
 type OblResult struct {
 	fr      *FuncResult
 	ob      Oblig
@@ -86,6 +88,7 @@ func main() {
 		only := fs.String("func", "", "only this function (debugging)")
 		noReplay := fs.Bool("noreplay", false, "skip replays")
 		noEvidence := fs.Bool("noevidence", false, "do not write evidence (self-test runs)")
+		fs.StringVar(&replayBase, "replaydir", filepath.Join(verifDir, "replays"), "directory for replay artefacts")
 		fs.Parse(os.Args[2:])
 		if *prop == "" {
 			fmt.Fprintln(os.Stderr, "missing -prop")
@@ -94,6 +97,22 @@ func main() {
 		code := runCheck(*prop, *tier, ovs, *only, os.Args[1] == "baseline", *noReplay, *noEvidence)
 		cleanupTmp()
 		os.Exit(code)
+	case "dump": // gocv dump <pkgpath> <func> : prints the SSA the executor sees (debugging aid)
+		ctx, err := loadContext([]string{os.Args[2]}, nil, nil)
+		if err != nil {
+			fmt.Println(err)
+			os.Exit(2)
+		}
+		for _, sp := range ctx.pkgs {
+			if strings.HasSuffix(sp.Pkg.Path(), strings.TrimPrefix(os.Args[2], ".")) || sp.Pkg.Path() == os.Args[2] {
+				if fn := ctx.lookupFunc(sp, os.Args[3]); fn != nil {
+					fn.WriteTo(os.Stdout)
+					for _, a := range fn.AnonFuncs {
+						a.WriteTo(os.Stdout)
+					}
+				}
+			}
+		}
 	case "list":
 		for _, f := range findContractFiles() {
 			cs, err := parseContractFile(f, pkgPathOfDir(filepath.Dir(f)))
@@ -375,7 +394,7 @@ func decide(ctx *Context, r *OblResult, prop string, baseline map[string]bool, t
 			return
 		}
 	}
-	dir := filepath.Join(verifDir, "replays", prop, safeName(r.ob.Name))
+	dir := filepath.Join(replayBase, prop, safeName(r.ob.Name))
 	r.replay = dir
 	os.MkdirAll(dir, 0o755)
 	os.WriteFile(filepath.Join(dir, "obligation.txt"), []byte(fmt.Sprintf("property: %s\nobligation: %s\nkind: %s\nposition: %s\nsolver answer: %s (%s)\n\nsolver output:\n%s\n", prop, r.ob.Name, r.ob.Kind, r.ob.Pos, r.status, r.solver, truncate(r.detail, 20000))), 0o644)
